@@ -176,13 +176,21 @@ pub fn execute(command: AdtCommands) -> Result<()> {
     }
 }
 
+/// Open an ADT input for parsing. A directory can be opened on some platforms and then fails on
+/// every read, which the chunk scanner takes for the end of the file: refuse it here.
+fn open_adt_file(file: &str) -> Result<File> {
+    if Path::new(file).is_dir() {
+        anyhow::bail!("Not a regular file: {file}");
+    }
+    File::open(file).with_context(|| format!("Failed to open ADT file: {file}"))
+}
+
 fn execute_info(file: &str, detailed: bool) -> Result<()> {
     println!("ADT File Information");
     println!("====================");
     println!();
 
-    let file_handle =
-        File::open(file).with_context(|| format!("Failed to open ADT file: {file}"))?;
+    let file_handle = open_adt_file(file)?;
     let mut reader = BufReader::new(file_handle);
     let (adt, metadata) = parse_adt_with_metadata(&mut reader)
         .with_context(|| format!("Failed to parse ADT file: {file}"))?;
@@ -383,8 +391,7 @@ fn execute_validate(file: &str, level: &str, warnings: bool) -> Result<()> {
     println!("Level: {level}");
     println!();
 
-    let file_handle =
-        File::open(file).with_context(|| format!("Failed to open ADT file: {file}"))?;
+    let file_handle = open_adt_file(file)?;
     let mut reader = BufReader::new(file_handle);
     let (adt, metadata) = parse_adt_with_metadata(&mut reader)
         .with_context(|| format!("Failed to parse ADT file: {file}"))?;
@@ -448,8 +455,7 @@ fn execute_convert(input: &str, output: &str, to_version: &str) -> Result<()> {
     println!();
 
     // Parse the input ADT file
-    let file =
-        File::open(input).with_context(|| format!("Failed to open input ADT file: {}", input))?;
+    let file = open_adt_file(input)?;
     let mut reader = BufReader::new(file);
     let (adt, metadata) = parse_adt_with_metadata(&mut reader)
         .with_context(|| format!("Failed to parse ADT file: {}", input))?;
@@ -531,8 +537,7 @@ fn execute_tree(
     use crate::utils::tree::{NodeType, TreeNode, TreeOptions, render_tree};
 
     // Parse the ADT file
-    let file_handle =
-        File::open(file).with_context(|| format!("Failed to open ADT file: {file}"))?;
+    let file_handle = open_adt_file(file)?;
     let mut reader = BufReader::new(file_handle);
     let (adt, metadata) = parse_adt_with_metadata(&mut reader)
         .with_context(|| format!("Failed to parse ADT file: {file}"))?;
